@@ -359,6 +359,16 @@ def run(ch, idx, tier):
     mode = ch.pick("sigma_mode", ["positive", "asis", "mixed", "zero", "none"])
     if mode == "asis" and name not in ("uncertainty", "uncertainty_low"):
         mode = "positive"
+    if ch.flip("zero_valued_constant", 0.3):
+        # a quantity entered as a constant of exactly 0 (no year-specific values) is as uncertain as any other
+        fw = P.framework
+        cands = [pn for pn in parset.pars if pn in fw.pars.index and parset.pars[pn].ts and str(fw.pars.at[pn, "format"]).lower() in ("probability", "rate", "number") and not isinstance(fw.pars.at[pn, "function"], str)]
+        if cands:
+            par = parset.pars[cands[ch.choose("zero_constant.par", len(cands))]]
+            pops_ = list(par.ts.keys())
+            ts = par.ts[pops_[ch.choose("zero_constant.pop", len(pops_))]]
+            ts.t, ts.vals, ts.assumption = [], [], 0.0
+            bump("probe:zero_valued_constant_made_uncertain")
     npos = _set_sigmas(ch, P, parset, progset, mode)
     api = ch.pick("api", ["run_sampled_sims", "ensemble"])
     parallel = ch.flip("parallel", 0.75)
